@@ -17,7 +17,7 @@ from .. import e2e, guard
 from ..common import Rng, hx, unhx
 from ..runner import Check
 from ..translate import graphql_tables
-from . import c17_bridge
+from . import c17_bridge, c17_order
 
 NoneType = type(None)
 BUILTIN = {"Int": "int", "Float": "float", "String": "str", "Boolean": "bool", "ID": "str"}  # GraphQL spec §3.5
@@ -553,7 +553,7 @@ def validate_instance(cls, kind: str, value):
         pydantic.TypeAdapter(cls).validate_python(value)
 
 
-FLAGS = ["use_standard_collections", "use_union_operator", "force_optional_for_required_fields"]
+FLAGS = c17_order.SPELLING_FLAGS  # use_union_operator, use_standard_collections, force_optional_for_required_fields, field_constraints, use_annotated
 
 
 def classify_import_error(e: BaseException, schema=None) -> str:
@@ -572,6 +572,18 @@ def classify_import_error(e: BaseException, schema=None) -> str:
             return "single_member_union_before_member"
         return "name_unbound"
     return "import_error"
+
+
+def import_failure(e: BaseException, schema, sdl: str) -> tuple[str, dict]:
+    """(mechanism, further classification keys) of an exception raised while the module is loaded"""
+    mech = classify_import_error(e, schema)
+    extra: dict = {}
+    if mech == "single_member_union_before_member":
+        # the trigger of the recorded finding: the member class is kept back by the first pass of
+        # sort_data_models (an interface it implements is not placed when it is visited) while the alias
+        # is placed by it; a single-member alias that fails over an EARLY member is something else
+        extra["member_kept_back"] = getattr(e, "name", None) in c17_order.first_pass_late(c17_order.schema_defs(sdl))
+    return mech, extra
 
 
 def unbound_aliased(code: str) -> list[str]:
@@ -634,15 +646,20 @@ def oracle_case(ck: Check, camp, sdl: str, kind: str, flags: dict, scalar_map: d
     # evaluated to) would be shared between the modules of different cases of this process
     for clear in typing._cleanups:  # noqa: SLF001
         clear()
+    observation = {"sdl": sdl, "kind": kind, "flags": flags, "code": code, "import_error": None}
+    if hasattr(ck, "c17_obs"):
+        ck.c17_obs.append(observation)  # the ordering correspondence (c17_order.campaign_order) looks at the same module
     try:
         mod = e2e.load_module(code, kind)
     except BaseException as e:  # noqa: BLE001
         if isinstance(e, (KeyboardInterrupt, SystemExit)):
             raise
-        fail(classify_import_error(e, schema), f"importing the generated module raised {type(e).__name__}: {str(e)[:200]}")
+        observation["import_error"] = (type(e).__name__, getattr(e, "name", None))
+        mech, extra = import_failure(e, schema, sdl)
+        fail(mech, f"importing the generated module raised {type(e).__name__}: {str(e)[:200]}", **extra)
         return
     try:
-        _check_module(ck, camp, fail, schema, mod, code, kind, flags, scalar_map, seed)
+        _check_module(ck, camp, fail, schema, mod, code, kind, flags, scalar_map, seed, sdl)
     finally:
         e2e.unload(mod)
     if not failed:
@@ -651,7 +668,7 @@ def oracle_case(ck: Check, camp, sdl: str, kind: str, flags: dict, scalar_map: d
         camp.samples.append({"sdl": sdl, "model": kind, "flags": flags, "scalar_map": scalar_map})
 
 
-def _check_module(ck, camp, fail, schema, mod, code, kind, flags, scalar_map, seed) -> None:
+def _check_module(ck, camp, fail, schema, mod, code, kind, flags, scalar_map, seed, sdl) -> None:
     import graphql
 
     fo = bool(flags.get("force_optional_for_required_fields"))
@@ -689,7 +706,18 @@ def _check_module(ck, camp, fail, schema, mod, code, kind, flags, scalar_map, se
             else:
                 args = typing.get_args(al) if typing.get_origin(al) in (typing.Union, types.UnionType) else ()
                 have = {a.__forward_arg__ if isinstance(a, typing.ForwardRef) else getattr(a, "__name__", repr(a)) for a in args}
-                ok = have == want
+                # the alias denotes exactly the union of the member CLASSES of this module: a forward
+                # reference is what its text evaluates to in the module's namespace
+                denoted = []
+                for a in args:
+                    if isinstance(a, (typing.ForwardRef, str)):
+                        try:
+                            a = eval(a.__forward_arg__ if isinstance(a, typing.ForwardRef) else a, vars(mod))  # noqa: S307 - a name written by the generator
+                        except Exception:  # noqa: BLE001
+                            a = None
+                    denoted.append(a)
+                ok = have == want and len(args) == len(want) and all(isinstance(d, type) for d in denoted) \
+                    and set(denoted) == {getattr(mod, m) for m in want}
             if not ok:
                 return fail("union_alias", f"union {n}: alias over {sorted(have)}, members are {sorted(want)}")
 
@@ -714,13 +742,15 @@ def _check_module(ck, camp, fail, schema, mod, code, kind, flags, scalar_map, se
             elif kind == "pydantic.BaseModel":
                 cls.update_forward_refs(**vars(mod))
         except Exception as e:  # noqa: BLE001
-            return fail(classify_import_error(e, schema), f"resolving the annotations of class {n} raised {type(e).__name__}: {str(e)[:200]}")
+            mech, extra = import_failure(e, schema, sdl)
+            return fail(mech, f"resolving the annotations of class {n} raised {type(e).__name__}: {str(e)[:200]}", **extra)
     for n, t in object_like.items():
         cls = getattr(mod, n)
         try:
             hints = typing.get_type_hints(cls, globalns=vars(mod))
         except Exception as e:  # noqa: BLE001
-            return fail(classify_import_error(e, schema), f"annotations of class {n} do not evaluate: {type(e).__name__}: {str(e)[:200]}")
+            mech, extra = import_failure(e, schema, sdl)
+            return fail(mech, f"annotations of class {n} do not evaluate: {type(e).__name__}: {str(e)[:200]}", **extra)
         info = member_info(cls, kind)
         # one member per field plus the __typename member
         want_members = set(t.fields) | {"typename__"}
@@ -789,13 +819,21 @@ def campaign_e2e(ck: Check, n_docs: int, variants: int) -> None:
     rng = ck.rng.fork("e2e")
     for sdl, kind, flags, smap in CORPUS:
         oracle_case(ck, camp, sdl, kind, flags, smap, 1)
+    me = sys.modules[__name__]
     for i in range(n_docs):
-        doc = gen_doc(rng, safe_unions=not rng.chance(1, 5), nested_ifaces=rng.chance(1, 4))
+        if i % 3 == 2:
+            # the interface-chain / union family, every parameter from the seed
+            depth = rng.range(2, 4)
+            doc = c17_order.gen_chain_doc(
+                rng, me, depth=depth, direction=rng.choice(c17_order.DIRECTIONS), nullable_only=rng.chance(1, 2),
+                union_shape=rng.choice(c17_order.UNION_SHAPES), member_level=rng.choice(["top", "mid", "root"]), cyclic=rng.chance(2, 3))
+        else:
+            doc = gen_doc(rng, safe_unions=not rng.chance(1, 5), nested_ifaces=rng.chance(1, 3))
         sdl = render_doc(doc)
         scalars = [k for k, v in doc.items() if v["kind"] == "scalar"]
         kinds = e2e.EXECUTABLE_KINDS if i % 3 == 0 else rng.sample(e2e.EXECUTABLE_KINDS, variants)
         for kind in kinds:
-            flags = {f: True for f in FLAGS if rng.chance(1, 3)}
+            flags = c17_order.legal_flags({f: True for f in FLAGS if rng.chance(1, 3)})
             smap = {s: rng.choice(["int", "float", "bool", "str"]) for s in scalars if rng.chance(1, 3)}
             # the configured Python type must be honoured for the predefined scalars as well
             for b in BUILTIN:
@@ -914,11 +952,21 @@ def run(ck: Check) -> None:
         "types named Query / Mutation are skipped by the generator by design (Gen/GraphqlTables.skippedTypeNames); documents name their root type differently",
         "a JSON object conforming to an object type supplies every field (nullable ones possibly null); input objects may leave nullable fields out; values of a custom scalar are values of its configured Python type",
         "the pydantic-v1-style output is executed on pydantic.v1 of pydantic 2.13; msgspec output is not executable here and is not part of this oracle",
+        "ordering model: the named types are taken in the order of the generator's own build_graphql_schema(sdl).type_map (graphql-core's lexicographic sort is a parameter); MAX_RECURSION_COUNT of sort_data_models is not modelled (the schemas here need a handful of passes); one output module",
+        "Union template: the template variables the model gives a value are `description` and those parse_union sets from parser options (generated table unionTemplateVars); the theorems quantify over ALL settings of the variables, the campaigns pass no per-union extra_template_data",
+        "a right-hand side of an alias statement is evaluated when the module is imported, a class-member annotation is not (`from __future__ import annotations` heads every generated module); names inside a string literal are forward references",
     ]
     guard.campaign(ck, campaign_parse_field, 12 if quick else 100, 40)
     guard.campaign(ck, c17_bridge.campaign_annotation, 20 if quick else 160, 40, sys.modules[__name__])
     guard.campaign(ck, campaign_object_like, 120 if quick else 1000)
+    ck.c17_obs = []
+    me = sys.modules[__name__]
+    guard.campaign(ck, c17_order.campaign_family, me, quick)
+    guard.campaign(ck, c17_order.campaign_all_orders, me, quick)
     guard.campaign(ck, campaign_e2e, 150 if quick else 1200, 2)
+    guard.campaign(ck, c17_order.campaign_order, me)
+    ck.c17_obs = []
+    ck.search_hooks.append(lambda c: c17_order.search_order(c, me))
     ck.search_hooks.append(search_wrappers)
     ck.search_hooks.append(shrink_first_failure)
     shrink_first_failure(ck)
